@@ -129,6 +129,33 @@ class PG:
         self.end()
         self.emit("")
         self.cfuncs["ngr"] = [name]
+        # functions that return from the else clause of a prange loop (the clause runs after the parallel section, with the GIL)
+        self.begin("c_pre0")
+        self.emit("cdef object c_pre0(int a):")
+        self.emit("    cdef int i")
+        self.emit("    cdef int s = 0")
+        self.emit("    for i in prange(a + 1, nogil=True):")
+        self.emit("        s += i")
+        self.emit("    else:")
+        self.emit("        if a != 1:")
+        self.emit("            with gil:")
+        self.emit("                return (a, 0)")
+        self.emit("    " + self.p())
+        self.emit("    return (s, 1)")
+        self.end()
+        self.emit("")
+        self.begin("d_pre0")
+        self.emit("def d_pre0(int a):")
+        self.emit("    cdef int i")
+        self.emit("    cdef int s = 0")
+        self.emit("    for i in prange(a + 2, nogil=True):")
+        self.emit("        s += i")
+        self.emit("    else:")
+        self.emit("        with gil:")
+        self.emit("            " + self.p())
+        self.emit("            return a + 9")
+        self.end()
+        self.emit("")
         # nogil helper re-acquiring the GIL for a probe
         for j in range(1):
             name = "c_ng%d" % j
@@ -238,7 +265,11 @@ class PG:
     def leaf(self, ind):
         r = self.rng
         c = self.cfuncs
-        q = r.randrange(24)
+        q = r.randrange(26)
+        if q == 24:
+            return ["%so = c_pre0(a)" % ind]
+        if q == 25:
+            return ["%so = d_pre0(a)" % ind]
         if q == 22:
             # typed memoryview acquisition from a PEP-688 exporter whose __buffer__ is a fallible call
             self.pk += 1
@@ -407,7 +438,7 @@ def _has_guarded_return(lines):
     return False
 
 
-HEADER = "import sys\nfrom simseam import P, X, CM, E1, E2, E3, Inj, Tracked, Buf\n\n"
+HEADER = "import sys\nfrom cython.parallel import prange\nfrom simseam import P, X, CM, E1, E2, E3, Inj, Tracked, Buf\n\n"
 
 
 def gen_module(rng, nfuncs):
